@@ -13,6 +13,8 @@
 package simsync
 
 import (
+	"fmt"
+	"sort"
 	"sync"
 	"sync/atomic"
 
@@ -22,9 +24,10 @@ import (
 // Locker is sync.Locker.
 type Locker = sync.Locker
 
-// Map and Pool are not modelled (unused by gogu); they are the real types.
+// Pool is the real type (unused by gogu). Map (unused by gogu today) wraps the real sync.Map:
+// every operation is preceded by a scheduling point, and Range visits the entries in a
+// deterministic order (the real Range follows Go's randomised map iteration, which has no seed).
 type (
-	Map  = sync.Map
 	Pool = sync.Pool
 )
 
@@ -649,4 +652,54 @@ func itoa(n int) string {
 		b[i] = '-'
 	}
 	return string(b[i:])
+}
+
+// Map mirrors sync.Map.
+type Map struct{ m sync.Map }
+
+func (m *Map) Load(key any) (value any, ok bool) { simrt.AtomicYield(); return m.m.Load(key) }
+func (m *Map) Store(key, value any)              { simrt.AtomicYield(); m.m.Store(key, value) }
+func (m *Map) Clear()                            { simrt.AtomicYield(); m.m.Clear() }
+func (m *Map) Delete(key any)                    { simrt.AtomicYield(); m.m.Delete(key) }
+func (m *Map) LoadOrStore(key, value any) (actual any, loaded bool) {
+	simrt.AtomicYield()
+	return m.m.LoadOrStore(key, value)
+}
+func (m *Map) LoadAndDelete(key any) (value any, loaded bool) {
+	simrt.AtomicYield()
+	return m.m.LoadAndDelete(key)
+}
+func (m *Map) Swap(key, value any) (previous any, loaded bool) {
+	simrt.AtomicYield()
+	return m.m.Swap(key, value)
+}
+func (m *Map) CompareAndSwap(key, old, new any) (swapped bool) {
+	simrt.AtomicYield()
+	return m.m.CompareAndSwap(key, old, new)
+}
+func (m *Map) CompareAndDelete(key, old any) (deleted bool) {
+	simrt.AtomicYield()
+	return m.m.CompareAndDelete(key, old)
+}
+
+// Range calls f for the entries present when it starts, in the order of their printed keys.
+func (m *Map) Range(f func(key, value any) bool) {
+	simrt.AtomicYield()
+	type kv struct {
+		k, v any
+		s    string
+	}
+	var all []kv
+	m.m.Range(func(k, v any) bool {
+		all = append(all, kv{k, v, fmt.Sprintf("%T:%v", k, k)})
+		return true
+	})
+	sort.SliceStable(all, func(i, j int) bool { return all[i].s < all[j].s })
+	for _, e := range all {
+		if v, ok := m.m.Load(e.k); ok {
+			if !f(e.k, v) {
+				return
+			}
+		}
+	}
 }
